@@ -1,6 +1,6 @@
 """C13 - comparison operators form a coherent algebra over values.
 
-Exhaustive: every ordered pair of a 40-value universe x {==,<,<=,>,>=} x both
+Exhaustive: every ordered pair of a 46-value universe x {==,<,<=,>,>=} x both
 polarities x {query RHS, literal RHS}; `in [..]`, the four range bracket forms and
 regex search are checked against Python on sampled/enumerated operands.
 Oracle: Python semantics on the model values (ints exact, floats IEEE, strings by
@@ -23,8 +23,10 @@ U = [
     [], [1], [1, 2], [2, 1],
     {}, {"a": 1, "b": 2}, {"b": 2, "a": 1}, {"a": 1},
     3, 2.5, "abc", [1, 2, 3], {"a": 2}, "A", 1e-3,
+    # neighbours that only an exact integer / float comparison tells apart
+    2 ** 53, 2 ** 53 + 1, I64MAX - 1, -(2 ** 53) - 1, 0.1 + 0.2, 0.3,
 ]
-assert len(U) == 40
+assert len(U) == 46
 
 
 def tclass(v):
@@ -269,7 +271,7 @@ def main(tier, seed):
     pairs_cases = res.cases
     floor = {"cases": (res.cases, 20000), "distinct_classes": (len(res.distinct), 100)}
     return core.finish("C13", tier, seed, res, t0,
-                       rule="every ordered pair of the 40-value universe x 5 operators x 2 polarities x {query,literal} RHS, "
+                       rule="every ordered pair of the 46-value universe x 5 operators x 2 polarities x {query,literal} RHS, "
                             "plus in-list, 4 range bracket forms x bound pairs, regex search vs python re; a case is distinct by "
                             "(operator, polarity, rhs form, lhs type, rhs type, status)",
                        floor=floor, exhaustive=True,
